@@ -176,6 +176,12 @@ def job_bv(a):
         except Exception as ex:  # noqa - "for every secret s": the oracle builder must produce an oracle for each of them
             return [res(name, REFUTED, strength="bounded", backend="exact-amplitudes", replayed=True,
                         replay=dict(call=src, observed=f"raises {type(ex).__name__}: {ex}"[:200], expected="an oracle denoting x.s mod 2"))]
+    elif form in ("tuple", "qlist"):
+        # the argument is a tuple / list of bools: the secret is reported in THAT type (element i = bit i of s)
+        ann = f"Tuple[{', '.join(['bool'] * n)}]" if form == "tuple" else f"Qlist[bool, {n}]"
+        terms = [f"a[{i}]" for i in range(n) if (s >> i) & 1]
+        src = f"def f(a: {ann}) -> bool:\n\treturn {' ^ '.join(terms) if terms else 'False'}"
+        qf = qlassf(src)
     else:
         terms = [bit(n, i) for i in range(n) if (s >> i) & 1]
         src = f"def f({arg_decl(n)}) -> bool:\n\treturn {' ^ '.join(terms) if terms else 'False'}"
@@ -203,7 +209,10 @@ def job_bv(a):
     reading = "".join(str(b) for b in reversed(key))
     try:
         dec = alg.decode_output(reading)
-        dec_ok = (dec == s) if n > 1 else (bool(dec) == bool(s))
+        if form in ("tuple", "qlist"):
+            dec_ok = not isinstance(dec, (int, bool)) and list(dec) == [bool((s >> i) & 1) for i in range(n)] and all(isinstance(x, bool) for x in dec)
+        else:
+            dec_ok = (dec == s and not isinstance(dec, (bool, tuple, list))) if n > 1 else (isinstance(dec, bool) and dec == bool(s))
     except Exception as ex:  # noqa
         dec, dec_ok = f"raises {ex}", False
     if ps == 1 and dec_ok:
@@ -374,6 +383,9 @@ def run(tier, only=None):
             if n >= 2:
                 jobs.append((job_bv, (n, s, "secret_oracle")))
             jobs.append((job_bv, (n, s, "xor")))
+            if n in (2, 3):
+                jobs.append((job_bv, (n, s, "tuple")))
+                jobs.append((job_bv, (n, s, "qlist")))
     for n in (2, 3, 4):
         for s in range(1, 1 << n):
             for v in (0, 1, 2):
